@@ -731,6 +731,17 @@ impl ClusterState {
     }
 }
 
+#[cfg(feature = "verif")]
+impl ClusterState {
+    /// Remembered heartbeats of garbage collected members, most recently used first.
+    pub(crate) fn verif_gc_memory(&self) -> Vec<(ChitchatId, Heartbeat)> {
+        self.garbage_collected_nodes
+            .iter()
+            .map(|(chitchat_id, heartbeat)| (chitchat_id.clone(), *heartbeat))
+            .collect()
+    }
+}
+
 /// Score used to decide which member should be gossiped first.
 ///
 /// Number of stale key-value pairs carried by the node. A key-value is considered stale if its
